@@ -43,6 +43,7 @@ macro "good_step" : tactic => `(tactic| with_reducible (first
   | apply good_withCtxND
   | apply good_withContentND
   | apply good_withScopeContentND
+  | apply good_withScopeContentD
   | apply good_withCtxD
   | apply good_withWriterD_discard
   | intro _))
